@@ -234,6 +234,9 @@ func (b *Broker) handle(c *Conn, n int, p *Pkt) (out []resp, closeAfter bool) {
 		se.conn = c
 		b.byConn[c] = se
 		s.log(Rec{Kind: "connected", Conn: c.k, B: sp})
+		if p.ProtoLevel == 3 {
+			sp = false // MQTT 3.1 has no Session Present flag: the byte is reserved (0)
+		}
 		out = []resp{{p: &Pkt{Type: TConnAck, SessionPresent: sp}}}
 		// scripted traffic right after CONNACK
 		for i := range s.sc.Script {
